@@ -2091,7 +2091,7 @@ Qed.
 (* ================================================================================== *)
 (* L. histories of macro-level operations                                               *)
 Definition macro_level (o : op) : Prop :=
-  match o with OSetIn [] _ _ => True | ORun => True | OSetBad [] _ => True | _ => False end.
+  match o with OSetIn [] _ _ => True | ORun => True | OSetBad [] _ => True | ORunKw _ => True | _ => False end.
 
 Lemma set_in_out_of_range d s v k x : wired d s -> coh d s v -> List.length (d_params d) <= k -> set_in s v k x = v.
 Proof.
@@ -2102,26 +2102,45 @@ Proof.
   rewrite upd_nth_overflow by lia. reflexivity.
 Qed.
 
+Lemma set_in_coh_any d s v k x : wired d s -> coh d s v -> coh d s (set_in s v k x).
+Proof.
+  intros Hw Hc. destruct (Nat.ltb_spec k (List.length (d_params d))).
+  - apply set_in_coh; auto.
+  - erewrite set_in_out_of_range; eauto.
+Qed.
+
+Lemma set_kw_coh d s kw : wired d s -> forall v, coh d s v -> coh d s (set_kw s v kw).
+Proof.
+  intros Hw. unfold set_kw. induction kw as [|[k x] r IH]; intros v Hc; simpl; auto.
+  apply IH. now apply set_in_coh_any.
+Qed.
+
+Lemma run_keeps_coh d s v v1 c1 p1 :
+  wfd d = true -> rets_distinct d = true -> wired d s -> coh d s v -> run s v = Some (v1, c1, p1) -> coh d s v1.
+Proof.
+  intros Hwf Hrd Hw Hc Er.
+  destruct (all_data (v_ins v)) eqn:Ed.
+  - destruct (run_coh d Hwf Hrd s v Hw Hc Ed) as (v2 & c2 & p2 & Er2 & Hc2 & _). congruence.
+  - (* a macro that is not ready cannot have run (unless its cache says so, which needs data) *)
+    exfalso. destruct d as [ps body rets fl]. destruct s as [|l ps' ols recvs kept uirecv sb manual order]; [simpl in Hw; tauto|].
+    rewrite run_mac in Er. unfold run_mac_with in Er. destruct v as [ins outs c ui vb]. simpl in Ed.
+    destruct (cache_hit c ins) eqn:Eh.
+    + apply cache_hit_iff in Eh. destruct Hc as (_ & Hcache & _). simpl in Hcache.
+      destruct (Hcache _ Eh) as [Hd _]. congruence.
+    + rewrite Ed in Er. discriminate.
+Qed.
+
 Lemma apply_op_coh d s v o v' n :
   wfd d = true -> rets_distinct d = true -> wired d s -> coh d s v -> macro_level o ->
   apply_op s v o = Some (v', n) -> coh d s v'.
 Proof.
-  intros Hwf Hrd Hw Hc Hm H. destruct o as [[|r p] k x|p l x| |[|r p] k]; simpl in Hm; try tauto; simpl in H;
-    [| |destruct (refuses_at s [] k); [inversion H; subst; exact Hc|discriminate]].
-  - inversion H; subst. rewrite set_in_at_nil.
-    destruct (Nat.ltb_spec k (List.length (d_params d))).
-    + apply set_in_coh; auto.
-    + erewrite set_in_out_of_range; eauto.
+  intros Hwf Hrd Hw Hc Hm H. destruct o as [[|r p] k x|p l x| |[|r p] k|kw]; simpl in Hm; try tauto; simpl in H.
+  - inversion H; subst. rewrite set_in_at_nil. now apply set_in_coh_any.
   - destruct (run s v) as [[[v1 c1] p1]|] eqn:Er; [|discriminate]. inversion H; subst.
-    destruct (all_data (v_ins v)) eqn:Ed.
-    + destruct (run_coh d Hwf Hrd s v Hw Hc Ed) as (v2 & c2 & p2 & Er2 & Hc2 & _). congruence.
-    + (* a macro that is not ready cannot have run (unless its cache says so, which needs data) *)
-      exfalso. destruct d as [ps body rets fl]. destruct s as [|l ps' ols recvs kept uirecv sb manual order]; [simpl in Hw; tauto|].
-      rewrite run_mac in Er. unfold run_mac_with in Er. destruct v as [ins outs c ui vb]. simpl in Ed.
-      destruct (cache_hit c ins) eqn:Eh.
-      * apply cache_hit_iff in Eh. destruct Hc as (_ & Hcache & _). simpl in Hcache.
-        destruct (Hcache _ Eh) as [Hd _]. congruence.
-      * rewrite Ed in Er. discriminate.
+    eapply run_keeps_coh; eauto.
+  - destruct (refuses_at s [] k); [inversion H; subst; exact Hc|discriminate].
+  - destruct (run s (set_kw s v kw)) as [[[v1 c1] p1]|] eqn:Er; [|discriminate]. inversion H; subst.
+    apply (run_keeps_coh d s (set_kw s v kw) v' n p1); auto. now apply set_kw_coh.
 Qed.
 
 Lemma apply_ops_coh d s : wfd d = true -> rets_distinct d = true -> wired d s ->
@@ -2440,11 +2459,15 @@ Qed.
 
 Lemma apply_op_vshape s v o v' n : vshape s v -> apply_op s v o = Some (v', n) -> vshape s v'.
 Proof.
-  intros Hv H. destruct o as [p k x|p l x| |p k]; simpl in H;
-    [| | |destruct (refuses_at s p k); [inversion H; subst; exact Hv|discriminate]].
+  intros Hv H. destruct o as [p k x|p l x| |p k|kw]; simpl in H.
   - inversion H; subst. now apply vshape_set_in_at.
   - inversion H; subst. now apply vshape_set_out_at.
   - destruct (run s v) as [[[v1 c1] p1]|] eqn:Er; [|discriminate]. inversion H; subst. eapply vshape_run; eauto.
+  - destruct (refuses_at s p k); [inversion H; subst; exact Hv|discriminate].
+  - destruct (run s (set_kw s v kw)) as [[[v1 c1] p1]|] eqn:Er; [|discriminate]. inversion H; subst.
+    apply (vshape_run s (set_kw s v kw) v' n p1); auto.
+    clear Er. unfold set_kw. revert v Hv. induction kw as [|[k x] r IH]; intros v Hv; simpl; auto.
+    apply IH. now apply vshape_set_in.
 Qed.
 
 Lemma apply_ops_vshape s : forall ops v v', vshape s v -> apply_ops s v ops = Some v' -> vshape s v'.
@@ -3168,7 +3191,7 @@ Fixpoint free_out (s : snode) (p : list kidref) (l : nat) {struct s} : Prop :=
   end.
 
 Definition free_op (s : snode) (o : op) : Prop :=
-  match o with OSetIn p k _ => free_in s p k | OSetOut p l _ => free_out s p l | ORun => True | OSetBad _ _ => True end.
+  match o with OSetIn p k _ => free_in s p k | OSetOut p l _ => free_out s p l | ORun => True | OSetBad _ _ => True | ORunKw _ => True end.
 
 Lemma synced_set_in_at : forall s v p k x, slinks s -> vshape s v -> synced s v -> free_in s p k ->
   synced s (set_in_at s v p k x).
@@ -3305,6 +3328,13 @@ Proof.
       * intros lx Hin. rewrite B. apply Her; auto. intros l0 o Hl. eauto.
 Qed.
 
+Lemma set_kw_synced s kw : slinks s -> forall v, vshape s v -> synced s v ->
+  vshape s (set_kw s v kw) /\ synced s (set_kw s v kw).
+Proof.
+  intros Hsl. unfold set_kw. induction kw as [|[k x] r IH]; intros v Hv Hs; simpl; auto.
+  apply IH; [now apply vshape_set_in|now apply synced_set_in].
+Qed.
+
 (* ALWAYS IN AGREEMENT, as long as no update is applied on the receiving side of a value link *)
 Theorem sync_always d l s v0 ops v :
   build d l = Some (s, v0) -> Forall (free_op s) ops -> apply_ops s v0 ops = Some v -> synced s v.
@@ -3317,12 +3347,15 @@ Proof.
   - destruct (apply_op s v0 o) as [[v1 n]|] eqn:E1; [|discriminate]. inversion Hall; subst.
     assert (Hv1 : vshape s v1) by (eapply apply_op_vshape; eauto).
     assert (Hs1 : synced s v1).
-    { destruct o as [p k x|p lo x| |p k]; simpl in E1, H2;
-        [| | |destruct (refuses_at s p k); [inversion E1; subst; exact Hs0|discriminate]].
+    { destruct o as [p k x|p lo x| |p k|kw]; simpl in E1, H2.
       - inversion E1; subst. apply synced_set_in_at; auto.
       - inversion E1; subst. apply synced_set_out_at; auto.
       - destruct (run s v0) as [[[v2 c2] p2]|] eqn:Er; [|discriminate]. inversion E1; subst.
-        exact (proj1 (run_synced s v0 v1 n p2 Hsl Hsr Hv0 Hs0 Er)). }
+        exact (proj1 (run_synced s v0 v1 n p2 Hsl Hsr Hv0 Hs0 Er)).
+      - destruct (refuses_at s p k); [inversion E1; subst; exact Hs0|discriminate].
+      - destruct (run s (set_kw s v0 kw)) as [[[v2 c2] p2]|] eqn:Er; [|discriminate]. inversion E1; subst.
+        destruct (set_kw_synced s kw Hsl v0 Hv0 Hs0) as [Hk1 Hk2].
+        exact (proj1 (run_synced s (set_kw s v0 kw) v1 n p2 Hsl Hsr Hk1 Hk2 Er)). }
     apply (IH v1); auto.
 Qed.
 
